@@ -18,8 +18,8 @@ theorem C06_scalar_total (e : Endian) (p : Prim) (data : Bytes) (pos : Nat) :
   Py.decScalar_total e p data pos
 
 /-- counters: a decoded counter is never above the guard, whatever the bytes -/
-theorem C06_counter_guard (e : Endian) (p : Prim) (data : Bytes) (pos : Nat) (c sz : Nat)
-    (h : Py.decSizer e p data pos = .ok (c, sz)) : c ≤ Py.arrayGuard :=
-  Py.decSizer_le_guard e p data pos c sz h
+theorem C06_counter_guard (e : Endian) (p : Prim) (shift : Nat) (data : Bytes) (pos : Nat) (c sz : Nat)
+    (h : Py.decSizer e p shift data pos = .ok (c, sz)) : c ≤ Py.arrayGuard :=
+  Py.decSizer_le_guard e p shift data pos c sz h
 
 end Prophy.C06
